@@ -504,6 +504,11 @@ def sym_round(x, n=None):
     c.defs[str(k)] = ("round", xs)
     if n is None:
         return SI(k)
+    # a rounded value that can take only a few values (e.g. a rooting depth in cm) is usually compared with grid
+    # constants such as 0.3: enumerate it so that the result is the same double the real round() returns.
+    if c.round_enum and not c.feasible(z3.Or(xs > c.round_enum, xs < -c.round_enum)):
+        v = c.enum_int(SI(k))
+        return v / scale
     return SF(z3.ToReal(k) / scale)
 
 
@@ -1044,6 +1049,7 @@ class Ctx:
         self.tsolve = 0.0
         self.unknown = 0
         self.replayer = None
+        self.round_enum = 64
         self.want = None
         self.refine_rounds = 4
         self.reset_path([])
